@@ -11,7 +11,7 @@ if ! git -C "$wt" apply "$patch" 2>/dev/null; then
   if ! git -C "$wt" apply --3way "$patch" >/dev/null 2>&1; then echo "patch does not apply to HEAD"; exit 9; fi
 fi
 cd /verif
-VF_REPO="$wt" /venv/bin/python -m vf.run "$check" --tier "$tier" 2>&1 | grep -v "^  key=" | tail -${TAILN:-4}
+VF_REPLAY_DIR="$wt/_replays" VF_REPO="$wt" /venv/bin/python -m vf.run "$check" --tier "$tier" 2>&1 | grep -v "^  key=" | tail -${TAILN:-4}
 rc=${PIPESTATUS[0]}
 git -C /verif checkout -q -- "evidence/$check.json" 2>/dev/null
 echo "exit=$rc"
